@@ -698,6 +698,8 @@ def run_case(c, rng):
             return
         r = rng.random()
         new = d[which] if r < 0.2 else rng.choice(sorted(cands))
+        if r > 0.92 and (restrict is None or sh.nodes[other]['type'] in restrict):
+            new = other         # both ends on one node: the transient state of every end-swap (wntr.morph.reverse_link goes through it)
         def fn():
             setattr(wn.get_link(ln), which + '_node', wn.get_node(new))
         def upd():
@@ -707,6 +709,23 @@ def run_case(c, rng):
             if new == d['start'] == d['end']:
                 c.count('self_loops')
         return do('link %s.%s_node = %r (was %r)' % (ln, which, new, d[which]), fn, 'ok', upd, 'reassign_end')
+
+    def op_reverse_link():
+        ln = pick(sh.links)
+        if ln is None:
+            return
+        d = sh.links[ln]
+        if d['sub'] in ('PRV', 'PSV', 'FCV') and not (sh.nodes[d['start']]['type'] == sh.nodes[d['end']]['type'] == 'Junction'):
+            return
+        def fn():
+            from wntr.morph.link import reverse_link
+            reverse_link(wn, ln, return_copy=False)
+        def upd():
+            d['start'], d['end'] = d['end'], d['start']
+            flags['reassigned'] = True
+            c.count('reassignments')
+            c.count('links_reversed')
+        return do('morph.reverse_link(%r) [%s -> %s]' % (ln, d['start'], d['end']), fn, 'ok', upd, 'reverse_link')
 
     def op_reassign_ref():
         form = rng.random()
@@ -840,7 +859,7 @@ def run_case(c, rng):
     table = [(op_add_junction, 8), (op_add_tank, 3), (op_add_reservoir, 3), (op_add_pipe, 10), (op_add_pump, 6), (op_add_valve, 6),
              (op_add_pattern, 5), (op_add_curve, 5), (op_add_source, 3), (op_add_control, 5), (op_remove_node, 9), (op_remove_link, 9),
              (op_remove_pattern, 5), (op_remove_curve, 5), (op_remove_source, 2), (op_remove_control, 3), (op_reassign_end, 8),
-             (op_reassign_ref, 9), (op_duplicate_add, 3), (op_missing_node_add, 2), (op_strand_node, 3)]
+             (op_reassign_ref, 9), (op_duplicate_add, 3), (op_missing_node_add, 2), (op_strand_node, 3), (op_reverse_link, 3)]
     weights = [w for _, w in table]
     n_ops = rng.randint(10, 60) if c.tier == 'quick' else rng.randint(20, 120)
     if big:
